@@ -665,7 +665,7 @@ theorem minus_before_number_witness (env : Tok → Value) :
       litValue, Value.list, Value.append, Number.ofSigned]
   · simp [toks, toksL, punctRun, parse, parseOctothorpe, parseVector, isSymPunct, Lit.isNumeric]
 
-/-- **Since the repair 509396b** a free-standing `-` before a string or character literal is the
+/-- **Since the repair 70c5316** a free-standing `-` before a string or character literal is the
     symbol `-`: `(- "s")`, `(- 'a')` and `(- "s" 1)` are well formed and the parser reads them as
     lists that start with the symbol `-` (computed on the explicit token lists, no theorem used). -/
 theorem minus_before_string_tokens (env : Tok → Value) :
